@@ -8,7 +8,8 @@ THEOREMS = ["Mesa.Computed." + t for t in (
     "C17_no_stale_partial", "C17_define_fresh", "C17_raise_is_fresh", "C17_den_deterministic", "C17_clean_is_fresh",
     "C17_failed_is_dirty", "C17_remembers_exactly_last_reads",
     "C17_minimal", "C17_minimal_partial", "C17_read_leaves_clean_and_later_untouched", "C17_cached_read_is_free", "C17_cycle_rejected", "C17_cycle_never_returns",
-    "C17_cycle_rejected_direct", "C17_cycle_record_per_evaluation")]
+    "C17_cycle_rejected_direct", "C17_cycle_record_per_evaluation", "C17_cycle_through_computable_rejected",
+    "C17_sources_are_the_dependencies")]
 COUNTS = {"quick": 1500, "thorough": 150000}
 EXHAUSTIVE = {"thorough": True}
 TRUSTED = [
@@ -29,7 +30,8 @@ RULE = ("random dependency structures: 1-2 owners, 2-4 Observables with values {
         "Computables (chains), raise on some branches (2/12 of the scenarios) and - in 1/12 of the scenarios - assign Observables; 8-30 ops (going on after an operation raised) from assign (incl. restoring "
         "values), read, late definitions, user handlers observing Observables and Computables (in 1/10 of the scenarios the "
         "handlers read Computables while notified); 4% directed raise scenarios (reads after a failed evaluation, through a chain, two owners with the read order of finding G12); 4% directed cycle scenarios: a function reads x, then in any order assigns "
-        "other Observables, reads a (chain of) Computable(s) that recompute at that moment, reads; then assigns x - and "
+        "other Observables, reads a (chain of) Computable(s) that recompute at that moment, reads; then assigns x; a function reads a Computable that is served from its cache / "
+        "re-validated without running and then assigns an Observable that one depends on (finding G15) or does not depend on - and "
         "assignments that are no cycle although an earlier evaluation read the key; non-trivial = at least two evaluations after the definitions and at "
         "least one read served from the cache")
 
@@ -39,8 +41,36 @@ def generate(rng, tier, count):
         yield C.gen_comp_scenario(rng)
 
 
-run_impl = C.run_comp
-oracle = C.oracle_comp
+def run_impl(sc):
+    return C.run_gc_witness(sc) if sc.lines[0] == C.GC_WITNESS[0] else C.run_comp(sc)
+
+
+def _pending_open():
+    """open findings of the fragment known_findings.d/C17.txt that the merged known_findings.txt (rewritten by
+    tools/mkmanifest.py at integration; core reads only that file) does not list yet: until then their clauses are kept
+    out of the failures here (the tag `known:G16-…` still counts them); afterwards core's KNOWN path handles them"""
+    import os
+    import re
+
+    def ids(path):
+        if not os.path.exists(path):
+            return set()
+        return {m.group(1) for l in open(path) if (m := re.match(r"open: property=C17 (\S+) ", l))}
+
+    return ids(os.path.join(core.VERIF, "known_findings.d", "C17.txt")) - ids(os.path.join(core.VERIF, "known_findings.txt"))
+
+
+_PENDING = None
+
+
+def oracle(sc, obs):
+    global _PENDING
+    if _PENDING is None:
+        _PENDING = _pending_open()
+    cls = C.oracle_gc_witness(sc, obs) if sc.lines[0] == C.GC_WITNESS[0] else C.oracle_comp(sc, obs)
+    return [c for c in cls if not any(KNOWN[i]["matches"](sc, c) for i in _PENDING if i in KNOWN)]
+
+
 tags = C.tags_comp
 
 
@@ -55,7 +85,14 @@ def _has_progs(sc):
     return any(C.parse_header(sc.lines[0])[1].values())
 
 
-KNOWN = {}     # G7 (a handler that reads a Computable while notified) is repaired; witness: corpus/C17/G7-*.ops
+# open findings (known_findings.d/C17.txt).  G16: the clause is only given to a value served without running the function, on
+# remembered values that are no longer the present ones, in a scenario in which a function other than the one read at top
+# level has assigned an Observable (inside another function or inside a dirty pre-check); G17: only the witness (owners'
+# deaths are not generated: they are not in the model)
+KNOWN = {
+    "G16": {"scenario": C.G16_WITNESS, "matches": lambda sc, clause: clause.startswith("stale-after-nested-write:")},
+    "G17": {"scenario": C.GC_WITNESS, "matches": lambda sc, clause: clause.startswith("stale-after-owner-collected:")},
+}
 
 
 def extra(ctx):
